@@ -47,7 +47,8 @@ def cases(tier, seed):
     # integer types show only here); terms sit on the last atoms, next to the ones the fragment is attached to
     for j in range(6 if tier == "quick" else 60):
         out.append({"kind": "large", "ns": int([100200, 131100, 200300, 262200, 100007, 310000][j % 6] + rng.integers(0, 50)), "no": int(rng.integers(4, 7)),
-                    "mode": ["default", "repeat", "shared"][j % 3], "s": int(rng.integers(1 << 30)), "mapped": j % 4 != 3 or j % 2 == 1, "many": j % 2 == 1})
+                    "mode": ["default", "repeat", "shared"][j % 3], "s": int(rng.integers(1 << 30)), "mapped": j % 4 != 3 or j % 2 == 1, "many": j % 2 == 1,
+                    "narrow_types": [None, "int8", "uint8", None, "int16", "int8"][j % 6]})
     return out
 
 
@@ -258,6 +259,10 @@ def run_case(case, ctx):
                 tgt = [x + shift for x in t]
             if max(tgt) < n and min(tgt) >= 0:
                 idx_map = {i: tgt[i] for i in range(len(tgt))}
+        if case.get("narrow_types"):
+            # the fragment's few atom types held in a narrow integer array (int8 / uint8 / int16), as a compact file format yields them
+            o.atom_types = np.asarray(o.atom_types).astype(getattr(np, case["narrow_types"]))
+            st.count("large_extensions_by_a_fragment_with_narrow_integer_atom_types")
         run_one(rng, a, o, idx_map, case["mode"], ctx, st)
         st.count("extensions_of_structures_with_more_than_1e5_atoms")
         st.seen("large_size_class", n // 100000)
@@ -306,6 +311,8 @@ def requirements(stats, tier):
     for m in ("default", "shared", "repeat"):
         if not stats.has("mode", m):
             need.append("mode %s not observed" % m)
+    if stats.get("large_extensions_by_a_fragment_with_narrow_integer_atom_types") < (3 if tier == "quick" else 40):
+        need.append("large structures extended by a fragment with int8/uint8/int16 atom types: %d" % stats.get("large_extensions_by_a_fragment_with_narrow_integer_atom_types"))
     if stats.get("extensions_of_structures_with_more_than_1e5_atoms") < (6 if tier == "quick" else 60) or stats.nseen("large_size_class") < 3:
         need.append("structures with more than 1e5 atoms: %d extensions" % stats.get("extensions_of_structures_with_more_than_1e5_atoms"))
     if stats.get("terms_superseded_beyond_row_2048") < (2 if tier == "quick" else 20):
